@@ -295,7 +295,7 @@ class FnAlloc:
     def dataflow(self):
         fn = self.fn; fn.dom(); n = len(self.sites)
         self.inside = {}; self.realloc_old = {}
-        self.dead_edges = fn.enum_default_edges()
+        self.dead_edges = fn.enum_default_edges(self.fi)
         init = tuple(frozenset({"M"}) if s.kind == "param" else frozenset({"U"}) for s in self.sites)
         IN = {fn.entry.id: init}; OUT = {}
         def join(a, b):
@@ -664,7 +664,7 @@ def owned_field_overwrites(eng, fn):
             L = dest_loc(i)
             if L is not None: targets.append((i, L))
     if not targets: return []
-    fn.dom(); dead = fn.enum_default_edges()
+    fn.dom(); dead = fn.enum_default_edges(fa.fi)
     IN = {fn.entry.id: frozenset()}; OUT = {}
     def transfer(b, st, probe=None):
         st = set(st)
